@@ -25,13 +25,16 @@ class DatasetAxes(Axes):
         self._ds = ds  # attached dataset
 
     def __setitem__(self, key, item):
+        # the dimension may be given by its position in the dataset: the
+        # contained DimArrays know it by name only
+        name = key if isinstance(key, str) else self[key].name
         super(DatasetAxes, self).__setitem__(key, item)
         # also apply the change to the contained DimArrays
         for k in self._ds.keys():
             dima = self._ds[k]
-            if key not in dima.dims: 
+            if name not in dima.dims: 
                 continue
-            dima.axes[key] = self[key]
+            dima.axes[name] = self[key]
 
     def __deepcopy__(self, memo):
         ' deepcopy interface otherwise fails '
